@@ -18,6 +18,7 @@ type pipeCheck struct {
 var chkDiff = pipeCheck{"R_mismatch", "diff_indices pinned_knobs regs cases", "mismatch", "staged model of pass.Compile vs the real passes (stage/error, pruned nodes, label targets, successors, predecessors, zero-extension, LiveIn/LiveOut, allocation, bound operands, frame size, final nodes, ISA)"}
 var chkLive = pipeCheck{"R_live_violation", "where_not (fun c => live_ok (snd c)) cases", "violation", "liveness differs from path liveness (a register byte class is reported live iff some path reaches a read before a write)"}
 var chkAlloc = pipeCheck{"R_alloc_violation", "where_not (fun c => alloc_ok regs (snd c)) cases", "violation", "allocation invalid: virtual register unmapped / wrong class / restricted register / two values that are live together share bytes of one physical register"}
+var chkSim = pipeCheck{"R_sim_violation", "where_not (fun c => sim_ok (snd c)) cases", "violation", "the proved validator rejects the allocation: under the model's (exact) liveness a definition shares storage with another live value"}
 var chkBind = pipeCheck{"R_bind_violation", "where_not (fun c => bind_ok regs (snd c)) cases", "violation", "bound code is not the substitution instance: virtual register remains, width view changed, or an author-named register was altered"}
 var chkBP = pipeCheck{"R_bp_violation", "where_not (fun c => bp_ok regs (fattrs (fst c)) (snd c)) cases", "violation", "function writes the base pointer but gets no frame (or NOFRAME is not refused)"}
 
